@@ -146,13 +146,17 @@ def expectedTarget (proxy : Bool) (script : List String) : Option (Bytes × Byte
   let url ← w.url
   if w.hostOverride || w.method == "CONNECT".toUTF8.toList || !Uri.containsSub Gen.Str.strColonSlashSlash url then none
   let u := Uri.parse [] url
+  -- `w.qa = some l`: `QueryArgs()` was called (flag `parsedQueryArgs` set): the arguments are the query, none when `l` is
+  -- empty; `none`: the raw query string is (/repo 97b0e80)
+  let parsed := w.qa.isSome
   let qa := w.qa.getD []
   let target :=
-    if proxy then u.fullURI qa
+    if proxy then u.fullURIp parsed qa
     else if w.dpn then
       -- `RequestURI()` with `DisablePathNormalizing`: `PathOriginal()` verbatim, "/" when it is empty (/repo bc3332b)
-      (if u.pathOriginal.isEmpty then [47] else u.pathOriginal) ++ (if !qa.isEmpty then 63 :: appendArgs qa else if !u.query.isEmpty then 63 :: u.query else [])
-    else u.requestURI qa
+      (if u.pathOriginal.isEmpty then [47] else u.pathOriginal) ++
+        (if parsed then (if !qa.isEmpty then 63 :: appendArgs qa else []) else if !u.query.isEmpty then 63 :: u.query else [])
+    else u.requestURIp parsed qa
   pure (target, u.host)
 
 def reqWriteHandle (expect : Option (Bytes × Bytes)) (script impl : List String) : Option Result := do
